@@ -426,7 +426,7 @@ pub fn run_job(job: &Job, opts: &RunOpts) -> Value {
     }
     bindgen::verif::steps::arm(opts.arm_steps);
     let result = catch_unwind(AssertUnwindSafe(|| {
-        let mut builder = if job.header.is_none() && !job.headers.is_empty() {
+        let mut builder = if job.header.is_none() && (!job.headers.is_empty() || !job.contents.is_empty()) {
             // Library use with several `.header()` calls: the command-line
             // parser insists on exactly one header, so build the Builder
             // directly (only the clang arguments after `--` are honoured).
@@ -436,8 +436,22 @@ pub fn run_job(job: &Job, opts: &RunOpts) -> Value {
             for h in &job.headers {
                 b = b.header(h.clone());
             }
-            if let Some(i) = job.flags.iter().position(|f| f == "--") {
-                b = b.clang_args(job.flags[i + 1..].iter().cloned());
+            let split = job.flags.iter().position(|f| f == "--").unwrap_or(job.flags.len());
+            let mut k = 0;
+            while k < split {
+                match job.flags[k].as_str() {
+                    "--clang-macro-fallback" => b = b.clang_macro_fallback(),
+                    "--clang-macro-fallback-build-dir" => {
+                        k += 1;
+                        b = b.clang_macro_fallback_build_dir(job.flags[k].clone());
+                    }
+                    "--generate-inline-functions" => b = b.generate_inline_functions(true),
+                    _ => {}
+                }
+                k += 1;
+            }
+            if split < job.flags.len() {
+                b = b.clang_args(job.flags[split + 1..].iter().cloned());
             }
             b
         } else {
